@@ -183,7 +183,8 @@ def latest_snapshot(snap_dirs):
     """Most recent completed save over all rounds (dirs in round order)."""
     for d in reversed(snap_dirs):
         if os.path.isdir(d):
-            ks = sorted((int(x) for x in os.listdir(d)), reverse=True)
+            ks = sorted((int(x) for x in os.listdir(d) if x.isdigit()),
+                        reverse=True)
             if ks:
                 return V.read_results(os.path.join(d, str(ks[0])))
     return None
